@@ -183,6 +183,8 @@ def build_teams(model, g, names=True):
             if k % 2 == 0 and float(s).is_integer() and abs(s) < 2 ** 53:
                 s = int(s)
             team.append(model.rating(mu=m, sigma=s, name=("p%d" % k) if names else None))
+            if names == "some" and k % 3 == 1:
+                team[-1].name = None          # most applications never name their ratings: None is the default
             k += 1
         teams.append(team)
     return teams
@@ -210,6 +212,7 @@ def nested_game(g):
 
 
 SEL_OBJECT = {}
+_OTHER_MODELS = []
 
 
 def call_rate(model, teams, g, reentrant=None, history=None):
@@ -217,6 +220,14 @@ def call_rate(model, teams, g, reentrant=None, history=None):
         history = HISTORY_EVERY > 0 and game_hash(g) % HISTORY_EVERY == 1 and not g.get("_no_history")
     if history:
         history_prelude(model, teams, g, game_hash(g))
+    try:
+        # another model object of the same class with other settings comes to life (and is re-tuned) before the call: settings are per object
+        other_ = type(model)(beta=g["beta"] * 2.0 + 0.5, kappa=min(1.0, g["kappa"] * 3.0), tau=g["tau"] * 0.5 + 0.375, limit_sigma=not g["ls"])
+        other_.tau, other_.limit_sigma, other_.beta = other_.tau * 2.0, not other_.limit_sigma, other_.beta * 1.5
+        _OTHER_MODELS.append(other_)
+        del _OTHER_MODELS[:-4]
+    except Exception:  # noqa: BLE001
+        pass
     kw = {}
     if g["oc"][0] == "R":
         kw["ranks"] = SEL_OBJECT.pop(id(g), None) or list(g["oc"][1])
@@ -236,7 +247,14 @@ def call_rate(model, teams, g, reentrant=None, history=None):
             # the documented positional form: rate(teams, ranks, scores, tau, limit_sigma)
             CALL_STATS["positional"] += 1
             rest = {k_: v_ for k_, v_ in kw.items() if k_ not in ("ranks", "scores")}
-            out = model.rate(teams, kw["ranks"], **rest) if "ranks" in kw else model.rate(teams, None, kw["scores"], **rest)
+            if h % 10 == 3:
+                # all five documented parameters by position: rate(teams, ranks, scores, tau, limit_sigma)
+                CALL_STATS["fully_positional"] = CALL_STATS.get("fully_positional", 0) + 1
+                out = model.rate(teams, kw.get("ranks"), kw.get("scores"), kw.get("tau"), kw.get("limit_sigma"))
+            else:
+                out = model.rate(teams, kw["ranks"], **rest) if "ranks" in kw else model.rate(teams, None, kw["scores"], **rest)
+        elif h % 8 == 5:
+            out = in_thread(lambda: model.rate(teams, **kw))
         else:
             out = model.rate(teams, **kw)
         if sel is not None and (len(sel) != len(before) or any(a is not b and a != b for a, b in zip(sel, before))):
@@ -288,6 +306,25 @@ def call_rate(model, teams, g, reentrant=None, history=None):
         return model.rate(teams, **kw)
     finally:
         model.gamma = orig
+
+
+def in_thread(fn):
+    """run fn() in a freshly started worker thread and hand back its result or exception: the library is used from request / worker
+    threads, which never imported it themselves"""
+    import threading
+    box = {}
+
+    def run():
+        try:
+            box["v"] = fn()
+        except BaseException as e:  # noqa: BLE001
+            box["e"] = e
+    th = threading.Thread(target=run)
+    th.start(); th.join()
+    CALL_STATS["calls_made_in_a_worker_thread"] = CALL_STATS.get("calls_made_in_a_worker_thread", 0) + 1
+    if "e" in box:
+        raise box["e"]
+    return box["v"]
 
 
 def first_pair(a, b):
@@ -345,7 +382,8 @@ def run_impl_rate(g, cls=None):
     guest account): ids are labels, never keys."""
     model = build_model(g, cls)
     h = game_hash(g)
-    teams = with_user_subclass(build_teams(model, g), h) if cls is None else build_teams(model, g)
+    nm = "some" if h % 4 == 2 else True
+    teams = with_user_subclass(build_teams(model, g, names=nm), h) if cls is None else build_teams(model, g, names=nm)
     if SHARED_ID_EVERY and h % SHARED_ID_EVERY == 1:
         CALL_STATS["shared_ids"] = CALL_STATS.get("shared_ids", 0) + 1
         flat = [p for t in teams for p in t]
@@ -355,7 +393,7 @@ def run_impl_rate(g, cls=None):
     k = 0
     for t in teams:
         for p in t:
-            slot[p.name] = k
+            slot[p.name if p.name is not None else ("obj", id(p))] = k
             k += 1
     try:
         res = call_rate(model, teams, g)
@@ -363,7 +401,7 @@ def run_impl_rate(g, cls=None):
         return ("EXC", type(e).__name__)
     out = []
     for t in res:
-        out.append([(slot.get(p.name, -1), p.mu, p.sigma) for p in t])
+        out.append([(slot.get(p.name if p.name is not None else ("obj", id(p)), -1), p.mu, p.sigma) for p in t])
     return ("OK", out)
 
 
@@ -643,7 +681,8 @@ def impl_teams(g, cls=None):
     """run rate on the implementation; -> list of teams of (mu, sigma) or raises"""
     model = build_model(g, cls)
     h = game_hash(g)
-    teams = with_user_subclass(build_teams(model, g), h) if cls is None else build_teams(model, g)
+    nm = "some" if h % 4 == 2 else True
+    teams = with_user_subclass(build_teams(model, g, names=nm), h) if cls is None else build_teams(model, g, names=nm)
     if SHARED_ID_EVERY and h % SHARED_ID_EVERY == 1:
         CALL_STATS["shared_ids"] = CALL_STATS.get("shared_ids", 0) + 1
         flat = [p for t in teams for p in t]
